@@ -306,6 +306,70 @@ CLAIMED = {
             "CPython/hashlib; the executable Lean SHA-256 is validated against hashlib by the same correspondence. "
             "Lengths >= 2^32 (9-byte prefixes) are covered by the theorems only.",
             "§5 C03"),
+    "C09": ("proof",
+            "Lean 4 theorems (HDKey.child = BIP32 CKDpriv/CKDpub, derive = fold, neutering and taproot tweak commute, tweak = BIP341 "
+            "output key, path text round trip; abstract curve with explicit law hypothesis, abstract hashes) + model/"
+            "implementation/spec correspondence on both secp256k1 backends with chosen HMAC / TapTweak outputs",
+            "Props/C09.lean proves about the model of bip32.py / ec.py, for EVERY curve record, HMAC, HASH160, tagged hash and "
+            "Base58Check text function (group structure only through the explicit hypothesis EcLaws: commutative group, nG = 0 exactly, "
+            "x(-P)=x(P), parity flips, lift_x is the even-Y preimage; hash output lengths as hypotheses): child() of a private / public "
+            "parent equals CKDpriv / CKDpub for every key, chain code and index < 2^32 incl. the invalid cases (I_L >= n, zero key, "
+            "point at infinity: embit raises), wrapped in the bookkeeping (same version, depth+1, fingerprint of the parent key, child "
+            "number); the hardened flag only adds 2^31; indices >= 2^32 and hardened steps from a public key are refused; a child of a "
+            "depth-255 key cannot be built (raises); derive(path) is the left fold of child and a text path is parse_path then derive; "
+            "parse_path(path_to_str p) = p for every integer list; (child k i).to_public() = child (k.to_public()) i for all i < 2^31 "
+            "in key, chain code, depth, fingerprint, child number, version and in the failure cases, with the version test discharged for "
+            "every SLIP-132 version of the generated NETWORKS table and the real Base58Check digits (version bytes fix text[1:4] for all "
+            "payloads, proved by bounding the leading base-58 digits); pub(priv.taproot_tweak h) = pub(priv).taproot_tweak h for both Y "
+            "parities, both compression flags and every h incl. empty; the tweaked key has even Y and is BIP341's "
+            "Q = lift_x(x(P)) + H_TapTweak(x(P)||h)G, the private result is taproot_tweak_seckey's up to the even-Y normalisation. "
+            "The model follows the code after three small fixes (fixes/k02, k04, k05); theorems old_* show what the old code did. "
+            "Tie to /repo on every run: generated parents (both parities, special scalars, all versions, depth 0..255) x indices "
+            "{0,1,2^31-1,2^31,2^32-1,...} x hardened flag, HMAC outputs forced to I_L in {0,1,n-1,n,n+1,2^256-1,n-k,...} by patching "
+            "bip32.hmac, list and text paths to depth 255 and beyond, merkle roots {empty,00..,ff..,random,odd lengths}, TapTweak hashes "
+            "forced to {0,1,n-1,n,...,zero sum}, the BIP32 vectors of the repository and the BIP341 wallet vectors, every case under the "
+            "ctypes AND the pure-Python backend, compared with the Lean model and with the Lean BIP32 / BIP341 specs; commutation, fold, "
+            "refusal, parity and round trip are also evaluated directly on embit.",
+            "Trusted: Lean kernel + propext/Quot.sound/Classical.choice; EcLaws for secp256k1 is a stated mathematical hypothesis "
+            "(a seven-element toy curve shows it is satisfiable); my transcription of BIP32 CKD and the BIP341 reference code "
+            "(corroborated by the published vectors through the spec ops); the Python harness incl. the hmac / tagged_hash patches; "
+            "libsecp256k1's contract for the five binding functions used (seckey_verify, pubkey_create/parse/serialize, "
+            "privkey_add/negate, pubkey_add) is modelled, C08 compares it with both backends. embit refuses a TapTweak hash of 0, "
+            "BIP341 only t >= n (probability 2^-256; stated in taproot_eq_bip341). Path text: ASCII, CPython's 4300-digit limit not "
+            "modelled; parse_path's leniency (int() accepts '-1', '1_0', ' 1') is modelled and noted, not judged. BIP32's 'use the "
+            "next index' after an invalid child is the caller's business.",
+            "§5 C09"),
+    "C10": ("proof",
+            "Lean 4 theorems (SEC parser = strict SEC decoder on all byte strings, SEC / WIF / xkey round trips over the generated "
+            "network table, x-only = 32-byte X, one rejection theorem per class) + model/implementation/spec correspondence on both "
+            "secp256k1 backends with a structured corruption stream",
+            "Props/C10.lean proves about the model of ec.py / bip32.py / base.py, for every curve record (EcLaws as explicit hypothesis "
+            "where a round trip needs it), every hash and every Base58Check codec (law dec(enc b) = b as hypothesis for the text round "
+            "trips): sec() is the SEC1 encoding and PublicKey.parse is EXACTLY the strict SEC decoder on every byte string (02/03+X on "
+            "the curve, 04+X+Y on the curve, nothing else: no hybrid keys, no other length); parse(sec k) = k incl. the compression flag; "
+            "x-only keys of public and private keys are the 32-byte X coordinate for both compression flags; wif() is "
+            "Base58Check(version||secret||[01]) and from_wif(wif k) returns the secret, the flag and a network with the same version byte "
+            "(exact for mainnet; test/regtest/signet share 0xef); serialize() is the BIP32 78-byte format and parse(serialize k) = k in "
+            "version, depth, fingerprint, child number, chain code and key (also through the text form), and for EVERY network and each "
+            "of its ten version prefixes of the generated table, with the real Base58 digits and any 4-byte checksum, every valid key of "
+            "the matching kind and every depth/fingerprint/index is accepted by the constructor and survives (xkey_roundtrip_table); "
+            "rejections, each for every input of the class: SEC wrong length / prefix incl. 06,07 / prefix-length mismatch / off-curve X "
+            "/ (X,Y) not a point; private key wrong length / scalar 0 or >= n; WIF bad checksum / length / flag / scalar / unknown "
+            "version; extended key < 78 or > 78 bytes / bad checksum / version of the wrong kind for the key field / depth 0 with index / "
+            "depth 0 with parent / scalar 0 or >= n / invalid public key; the constructor refuses uncompressed keys. The model follows the "
+            "code after fixes k01 (D13), k03, k04; old_xonly_uncompressed_is_64_bytes states the old behaviour. Tie to /repo on every "
+            "run: valid keys x {compressed, uncompressed} x all networks x all 40 version prefixes x depths x indices, and their "
+            "encodings corrupted by truncation, extension, prefix / version substitution (incl. private version on public key and vice "
+            "versa), coordinate substitution (random / off-curve X, X >= p, X+p aliases of small points, Y+1, -Y, Y >= p), scalars "
+            "0/n/n+1/2^256-1, bad checksums, flags, depth 0 with parent or index, random bytes, the BIP32 invalid-key vectors; every case "
+            "under both backends against the Lean model and the Lean encodings spec; round trips and every must-reject class are also "
+            "evaluated directly on embit with an independent integer-arithmetic curve test.",
+            "Trusted: Lean kernel + propext/Quot.sound/Classical.choice; EcLaws for secp256k1 (hypothesis; toy curve as witness of "
+            "satisfiability); the Base58Check law dec(enc b)=b is a hypothesis here (C11 proves the codec), the concrete "
+            "Model/Base58Check.lean is corresponded with embit.base58 every run; the Python harness. Rejection theorems are about the "
+            "model, which the correspondence ties to the code; exception classes are not compared (a truncated xkey raises IndexError, "
+            "not an EmbitError). The private key rebuilt by HDKey.parse carries the default network (the 78 bytes carry none).",
+            "§5 C10"),
     "C20": ("proof",
         "Lean 4 theorems over all thread counts, program lengths and schedules of a locking-protocol model (serialisability, "
         "no deadlock) + probe-based translator for the binding layer's lock/buffer facts (decide +kernel obligations over "
